@@ -6,6 +6,7 @@ import (
 	"regexp"
 	"sort"
 	"strconv"
+	"strings"
 	"sync"
 	"sync/atomic"
 	"testing"
@@ -41,12 +42,16 @@ func TestCheck(t *testing.T) {
 		histories(r)
 		negativeAsks(r)
 		tokenBucket(r)
+		batchedAcquire(r)
+		tokenBucketReconfigured(r)
 		r.ReportSched()
 		r.Require(r.Counter("seq_ops") >= 20000 && r.Counter("seq_increase_applied") >= 1000 && r.Counter("seq_increase_refused") >= 1000 &&
 			r.Counter("seq_boundary_counts") >= 2000 && r.Counter("seq_asks_whose_sum_exceeds_int32") >= 300 && r.Counter("batch_boundary_counts") >= 1000 &&
 			r.Counter("seq_stale_id") >= 500 && r.Counter("seq_stale_id_far_behind") >= 300 && r.Counter("seq_removals") >= 500 && r.Counter("seq_decrease_while_over_limit") >= 100, "sequential part observed too little")
 		r.Require(r.Counter("batch_racing-removals") >= 50 && r.Counter("batch_removal-vs-own-report") >= 50 && r.Counter("batch_reports") >= 50 &&
-			r.Counter("batch_reports-multiwriter") >= 50 && r.Counter("batch_removals-vs-other-reports") >= 50, "too few concurrent batches")
+			r.Counter("batch_reports-multiwriter") >= 50 && r.Counter("batch_removals-vs-other-reports") >= 50 && r.Counter("batch_reports+resize") >= 50, "too few concurrent batches")
+		r.Require(r.Counter("seq_cases_with_realistic_identities") >= 200 && r.Counter("seq_reinit_schema-recreated") >= 100 && r.Counter("seq_reinit_type-toggled") >= 100 && r.Counter("seq_reinit_leader-restart") >= 100,
+			"too few cases with realistic identities / re-initialisations of the flow control")
 		r.Require(r.Counter("batch_increase_refused") >= 200 && r.Counter("batch_decreases") >= 200, "batches did not reach the limit")
 		r.Require(r.Counter("lin_histories") >= 100 && r.Counter("lin_overlapping_pairs") >= 500, "too few / too sequential porcupine histories")
 		r.Require(r.Counter("tb_grants") >= 200 && r.Counter("tb_refused_or_partial") >= 200 && r.Counter("tb_negative_asks") >= 20, "token-bucket runs observed too little")
@@ -71,8 +76,7 @@ type debug struct {
 }
 
 var (
-	debugRe  = regexp.MustCompile(`^name=(\S*) max=(-?\d+) count=(-?\d+) total=(-?\d+) details=(.*)$`)
-	detailRe = regexp.MustCompile(`\[([^:\]]+): (-?\d+)\]`)
+	debugRe = regexp.MustCompile(`^name=(\S*) max=(-?\d+) count=(-?\d+) total=(-?\d+) details=(.*)$`)
 )
 
 func parseDebug(s string) (debug, bool) {
@@ -84,9 +88,15 @@ func parseDebug(s string) (debug, bool) {
 	d.Max, _ = strconv.ParseInt(m[2], 10, 64)
 	d.Count, _ = strconv.ParseInt(m[3], 10, 64)
 	d.Total, _ = strconv.ParseInt(m[4], 10, 64)
-	for _, x := range detailRe.FindAllStringSubmatch(m[5], -1) {
-		v, _ := strconv.ParseInt(x[2], 10, 64)
-		d.Per[x[1]] = v
+	// "[<instance>: <count>],[...]": the instance may contain ':', '[' and ']' (ip:port, IPv6) - entries are separated by "],[",
+	// the count follows the LAST ": " of an entry
+	if det := m[5]; len(det) >= 2 {
+		for _, e := range strings.Split(det[1:len(det)-1], "],[") {
+			if k := strings.LastIndex(e, ": "); k > 0 {
+				v, _ := strconv.ParseInt(e[k+2:], 10, 64)
+				d.Per[e[:k]] = v
+			}
+		}
 	}
 	return d, true
 }
@@ -170,6 +180,34 @@ func (v *viaServer) Set(in In) Out {
 }
 
 func (v *viaServer) Resize(max int32) { _ = v.apply(max) }
+
+// recreate: the schema is removed from the cluster and added again under the same name (a new flow-control object).
+func (v *viaServer) recreate(max int32) error {
+	c := &proxyv1alpha1.UpstreamCluster{ObjectMeta: metav1.ObjectMeta{Name: v.upstream}}
+	c.Spec.FlowControl.Schemas = []proxyv1alpha1.FlowControlSchema{mifSchema("other", 3)}
+	if err := v.srv.ApplyUpstream(c); err != nil {
+		return err
+	}
+	return v.apply(max)
+}
+
+// toggleType: the schema becomes a token bucket and then max-in-flight again (same name).
+func (v *viaServer) toggleType(max int32) error {
+	c := &proxyv1alpha1.UpstreamCluster{ObjectMeta: metav1.ObjectMeta{Name: v.upstream}}
+	c.Spec.FlowControl.Schemas = []proxyv1alpha1.FlowControlSchema{tbSchema("s", 100, 10)}
+	if err := v.srv.ApplyUpstream(c); err != nil {
+		return err
+	}
+	return v.apply(max)
+}
+
+// restart: the server loses the leadership of the upstream's shard and gains it again (new store, flow controls re-built
+// from the lister).
+func (v *viaServer) restart() {
+	sh := util.GetShardID(v.upstream, v.srv.Shards)
+	v.srv.Elector.Lose(sh, "")
+	v.srv.Elector.Gain(sh)
+}
 func (v *viaServer) Debug() (debug, bool) {
 	fc, err := v.store().GetFlowControl(v.upstream, "s")
 	if err != nil {
@@ -217,6 +255,9 @@ func classify(m *Model, in In, out Out) string {
 }
 
 func compareDebug(m *Model, d debug) string {
+	if d.Max != int64(m.Max) {
+		return fmt.Sprintf("the limit in force is %d, the configured global limit is %d", d.Max, m.Max)
+	}
 	if d.Count != d.Total {
 		return fmt.Sprintf("running total count=%d but the per-instance counts sum to %d", d.Count, d.Total)
 	}
@@ -311,6 +352,11 @@ func sequential(r *vkit.R) {
 		}
 		m := NewModel(max)
 		k := g.Range(1, 5)
+		names := []string{"gw0", "gw1", "gw2", "gw3", "gw4"}
+		if i%5 == 2 || i%20 == 3 { // identities as gateways really have them; "a:b" / "a-b" are two different instances
+			names = []string{"10.0.0.7:6443-a", "10.0.0.7-6443-a", "[fd00::1]:6443-b", "Node.A_1", "gw-é中", strings.Repeat("n", 70) + "-x"}[:k+1]
+			r.Count("seq_cases_with_realistic_identities", 1)
+		}
 		nano := i%3 != 0 // request ids at UnixNano scale (what gateways send) vs small integers
 		nextID := map[string]int64{}
 		var trace []seqOp
@@ -320,10 +366,42 @@ func sequential(r *vkit.R) {
 		}
 		nOps := g.Range(25, 60)
 		for op := 0; op < nOps; op++ {
-			inst := fmt.Sprintf("gw%d", g.Intn(k))
+			inst := names[g.Intn(k)]
 			x := g.Intn(100)
 			last := "report"
+			vs, onServer := tg.(*viaServer)
 			switch {
+			case onServer && x < 3:
+				// re-initialisation: the flow control is deleted and re-created under the same name, changes type and back, or the
+				// server loses and regains the shard. The statement does not say whether counts survive that; what it does say is
+				// that the total is exact and the configured limit is in force - the model is re-based on what is on record.
+				how := []string{"schema-recreated", "type-toggled", "leader-restart"}[g.Intn(3)]
+				var err error
+				switch how {
+				case "schema-recreated":
+					err = vs.recreate(m.Max)
+				case "type-toggled":
+					err = vs.toggleType(m.Max)
+				default:
+					vs.restart()
+				}
+				trace = append(trace, seqOp{Kind: how, Max: m.Max})
+				last = how
+				r.Count("seq_reinit_"+how, 1)
+				d, ok := tg.Debug()
+				if err != nil || !ok {
+					fail("C08/maxinflight/sequential/reinit/"+how+"/flow-control-missing", fmt.Sprintf("after %s the flow control of schema s is not there / DebugInfo does not parse (%v)", how, err))
+					return
+				}
+				nm := NewModel(m.Max)
+				for id, c := range d.Per {
+					if c < 0 {
+						fail("C08/maxinflight/sequential/reinit/"+how+"/negative-count", fmt.Sprintf("after %s instance %s has %d on record", how, id, c))
+						return
+					}
+					nm.Inst[id] = ist{Count: int32(c)}
+				}
+				m = nm
 			case x < 8: // limit change at quiescence
 				nm := c32(rng(g, 1, 2*int64(max)+1))
 				if g.Bool() && m.Total() > 1 {
@@ -481,16 +559,24 @@ type callRec struct {
 	Return int64 `json:"return"`
 }
 
-var batchKinds = []string{"reports", "reports-multiwriter", "removals-vs-other-reports", "racing-removals", "removal-vs-own-report"}
+var batchKinds = []string{"reports", "reports-multiwriter", "removals-vs-other-reports", "racing-removals", "removal-vs-own-report", "reports+resize"}
 
 // runClients runs each client's op list in its own goroutine (ids for reports are drawn from the per-instance counter right
 // before the call, so they increase in send order while arrival may be re-ordered) and returns the calls with logical times.
-func runClients(tg target, clients [][]In, ids map[string]*int64) []callRec {
+func runClients(tg target, clients [][]In, ids map[string]*int64, extra ...func()) []callRec {
 	var clock int64
 	var mu sync.Mutex
 	var all []callRec
 	start := make(chan struct{})
 	var wg sync.WaitGroup
+	for _, fn := range extra { // e.g. a limit change racing with the reports
+		wg.Add(1)
+		go func(fn func()) {
+			defer wg.Done()
+			<-start
+			fn()
+		}(fn)
+	}
 	for c, ops := range clients {
 		wg.Add(1)
 		go func(c int, ops []In) {
@@ -594,6 +680,10 @@ func batches(r *vkit.R) {
 						clients = append(clients, genReports(in, g.Range(1, 4)))
 					}
 				}
+			case "reports+resize":
+				for _, in := range insts {
+					clients = append(clients, genReports(in, g.Range(2, 4)))
+				}
 			case "racing-removals":
 				for w := 0; w < g.Range(2, 4); w++ {
 					clients = append(clients, []In{rm(victim)})
@@ -612,7 +702,17 @@ func batches(r *vkit.R) {
 					}
 				}
 			}
-			calls := runClients(tg, clients, ids)
+			var extra []func()
+			oldMax := max
+			if kind == "reports+resize" { // the limit changes WHILE reports are being processed
+				nm := c32(rng(g, 1, 2*int64(max)))
+				if g.Bool() && sumBefore > 1 {
+					nm = c32(rng(g, 1, sumBefore))
+				}
+				extra = append(extra, func() { tg.Resize(nm) })
+				max = nm
+			}
+			calls := runClients(tg, clients, ids, extra...)
 			r.Count("batch_"+kind, 1)
 			r.Count("batch_calls", len(calls))
 			d, ok := tg.Debug()
@@ -654,6 +754,13 @@ func batches(r *vkit.R) {
 			if bound < int64(max) {
 				bound = int64(max)
 			}
+			if bound < int64(oldMax) { // a limit change raced with the batch: each step respected the limit then in force
+				bound = int64(oldMax)
+			}
+			if d.Max != int64(max) {
+				r.Violation("C08/maxinflight/concurrent/"+kind+"/limit-in-force-differs", fmt.Sprintf("%s: after the batch the limit in force is %d, the configured global limit is %d", tg.Name(), d.Max, max), wit())
+				return
+			}
 			var sumPer int64 // the per-instance counts summed in int64 (the server's own totals are int32)
 			for _, v := range d.Per {
 				sumPer += v
@@ -667,7 +774,7 @@ func batches(r *vkit.R) {
 				return
 			}
 			// per call (kinds with one writer per instance and no removal of that instance: its record is known exactly)
-			if kind == "reports" || kind == "removals-vs-other-reports" || kind == "racing-removals" {
+			if kind == "reports" || kind == "removals-vs-other-reports" || kind == "racing-removals" || kind == "reports+resize" {
 				known := copyMap(rec)
 				last := map[string]int64{}
 				bad := false
@@ -686,6 +793,9 @@ func batches(r *vkit.R) {
 							ctx := "racing-increase"
 							if sumBefore > int64(max) {
 								ctx = "limit-below-total"
+							}
+							if kind == "reports+resize" {
+								ctx = "racing-limit-change"
 							}
 							r.Violation("C08/maxinflight/concurrent/decrease-not-applied/"+ctx,
 								fmt.Sprintf("%s: instance %s had %d on record and reported %d (id %d): answered accept=%v latest=%d - a report that does not raise the count must be applied (limit %d, sum before the batch %d)",
@@ -985,7 +1095,7 @@ func tokenBucket(r *vkit.R) {
 		}
 		pattern := g.Intn(3) // 0 saturating, 1 bursts with pauses, 2 ramp
 		perInst := g.Range(80, 250)
-		asks := []int32{0, 1, 1, 2, 3, 5, 8, 16, burst, burst + 1, 2 * burst, -1, -7}
+		asks := []int32{0, 1, 1, 2, 3, 5, 8, 16, burst, burst + 1, 2 * burst, -1, -7, math.MaxInt32, 1 << 30, math.MinInt32}
 		var mu sync.Mutex
 		var grants []grant
 		var allCalls [][2]int64
